@@ -163,7 +163,63 @@ func (x *Exec) heapGet(st *State, comp string, sort Sort) *Term {
 	}
 	t := Var(comp+"_0", sort)
 	x.vc.initHeap[comp] = t
+	x.heapWfAxiom(t, comp, Var("alloc_0", SInt))
 	return t
+}
+
+// heapWfAxiom: every value stored at an allocated address refers only to allocated objects.
+func (x *Exec) heapWfAxiom(h *Term, comp string, alloc *Term) {
+	a, i := Var("wa", SInt), Var("wi", SInt)
+	var ax *Term
+	switch {
+	case strings.HasPrefix(comp, "HS_"):
+		_, row := h.Sort.ArrayParts()
+		_, es := row.ArrayParts()
+		e := Select(Select(h, a), i)
+		w := x.wfSortAt(alloc, e, es, 0)
+		if w.IsTrue() {
+			return
+		}
+		ax = Forall([]*Term{a, i}, Implies(And(Cmp(">=", a, IntLit(0)), Cmp("<", a, alloc)), w), []*Term{e})
+	case strings.HasPrefix(comp, "HP_"):
+		_, es := h.Sort.ArrayParts()
+		e := Select(h, a)
+		w := x.wfSortAt(alloc, e, es, 0)
+		if w.IsTrue() {
+			return
+		}
+		ax = Forall([]*Term{a}, Implies(And(Cmp(">=", a, IntLit(0)), Cmp("<", a, alloc)), w), []*Term{e})
+	case strings.HasPrefix(comp, "MV_"):
+		_, row := h.Sort.ArrayParts()
+		ks, vs := row.ArrayParts()
+		k := Var("wk", ks)
+		e := Select(Select(h, a), k)
+		w := x.wfSortAt(alloc, e, vs, 0)
+		if w.IsTrue() {
+			return
+		}
+		ax = Forall([]*Term{a, k}, Implies(And(Cmp(">=", a, IntLit(0)), Cmp("<", a, alloc)), w), []*Term{e})
+	default:
+		return
+	}
+	x.U.AddAxiom(h.Op, ax)
+}
+
+// wfSortAt: sort-directed well-formedness (plain Int fields are skipped unless the struct type says they are references).
+func (x *Exec) wfSortAt(alloc *Term, v *Term, s Sort, depth int) *Term {
+	if s == SSlice {
+		return And(Cmp(">=", SlArr(v), IntLit(0)), Cmp("<", SlArr(v), alloc), Cmp(">=", SlOff(v), IntLit(0)),
+			Cmp(">=", SlLen(v), IntLit(0)), Cmp("<=", SlLen(v), SlCap(v)),
+			Implies(Eq(SlArr(v), IntLit(0)), And(Eq(SlCap(v), IntLit(0)), Eq(SlOff(v), IntLit(0)))))
+	}
+	if st, ok := x.TI.structOf[s]; ok && depth < 4 {
+		var cs []*Term
+		for i := 0; i < st.NumFields(); i++ {
+			cs = append(cs, x.wfAt(alloc, x.TI.FieldSel(s, i, v), st.Field(i).Type(), depth+1))
+		}
+		return And(cs...)
+	}
+	return TTrue
 }
 
 func (x *Exec) allocID(st *State) *Term {
@@ -648,6 +704,15 @@ func (x *Exec) loopEnv(st *State, fr *Frame, lp *Loop) *Env {
 
 func (x *Exec) autoInvariants(st *State, fr *Frame, lp *Loop) []*Term {
 	var out []*Term
+	if lp.rangeCell != nil && lp.rangeLen != nil {
+		ri, ok := st.cells[cellKey{fr.id, lp.rangeCell}]
+		if !ok {
+			return nil
+		}
+		ln := x.val(st, fr, lp.rangeLen).T
+		out = append(out, Cmp(">=", ri, IntLit(-1)), Or(Cmp("<", ri, ln), Eq(ri, IntLit(-1))))
+		return out
+	}
 	if lp.rangeIdx != nil && lp.rangeLen != nil {
 		ri := x.val(st, fr, lp.rangeIdx).T
 		ln := x.val(st, fr, lp.rangeLen).T
@@ -762,6 +827,7 @@ func (x *Exec) havocLoop(st *State, fr *Frame, lp *Loop) {
 			st.assume(Forall([]*Term{a}, Implies(And(cond...), Eq(Select(nh, a), Select(pre, a))), []*Term{Select(nh, a)}))
 		}
 		st.heap[c] = nh
+		x.heapWfAxiom(nh, c, st.alloc)
 	}
 	// map-range iterator ghost state
 	if lp.rangeIt != nil {
